@@ -11,7 +11,16 @@
 (*           eigenvalues are the known rationals Tr.lam[k] = <<num, den>>     *)
 (*   prop  : synthetic_ensemble rows (x1e6) from p0 = Tr.p0 / Tr.P            *)
 (* Logarithms are a constant table LnTab[k] = round(1e4 ln k).                *)
-EXTENDS Integers, Sequences, FiniteSets, TLC, Json, IOUtils
+(*                                                                            *)
+(* A LARGE trace (Tr.large; the solver behind eigenspectrum / eq_probs        *)
+(* depends on the size: sparse input with >= 1000 states goes to ARPACK)      *)
+(* carries T by columns, Tr.cols[j] = sequence of <<i, num, den>> with        *)
+(* T[i][j] = num / den (the exact rationals emitted by BuildersLarge.tla),    *)
+(* and the events                                                             *)
+(*   eigL  : eigenvalues (x1e6) and the leading left eigenvector (x Tr.scale) *)
+(*   eqL   : eq_probs (x Tr.scale)                                            *)
+(* every sum runs over the stored entries of one column: linear in n.         *)
+EXTENDS Integers, Sequences, FiniteSets, TLC, Json, IOUtils, Functions
 
 Traces == JsonDeserialize(IOEnv.TRACE_FILE)
 LnTab == <<0, 6931, 10986, 13863, 16094, 17918, 19459, 20794, 21972, 23026, 23979, 24849,
@@ -72,6 +81,26 @@ Propagate(e) == \A k \in 1..Len(e.rows6) : \A j \in Idx :
   IN Abs(e.rows6[k][j] * den - 1000000 * Prop(k - 1)[j]) <= den
 FinalIsLastRow(e) == e.final6 = e.rows6[Len(e.rows6)]
 
+(* ---- large sparse chains -------------------------------------------------------- *)
+Cols == Tr.cols
+Add(x, y) == x + y
+SumF(f) == FoldFunction(Add, 0, f)
+(* representable: every product below stays under 2^31.  The chains are irreducible, the stationary vector
+   is unique and far inside this range, so a vector outside it is not stationary *)
+InRange(p) == \A j \in Idx : \A k \in 1..Len(Cols[j]) :
+   LET c == Cols[j][k] IN p[c[1]] >= -1 /\ p[c[1]] <= 2147483647 \div c[2]
+(* sum_i p_i T_ij with every term rounded down: off by less than one unit per term *)
+ColFlow(p, j) == SumF([k \in 1..Len(Cols[j]) |-> (p[Cols[j][k][1]] * Cols[j][k][2]) \div Cols[j][k][3]])
+(* p >= 0, sum p = 1, p T = p; budget per column: one unit per term (floor) and per rounded entry, plus 1e-6
+   relative for the accuracy of an iterative eigenvector *)
+StationaryL(p) ==
+  /\ Len(p) = n /\ InRange(p)
+  /\ Abs(SumF(p) - Tr.scale) <= n
+  /\ \A j \in Idx : Abs(ColFlow(p, j) - p[j]) <= 2 * Len(Cols[j]) + 2 + p[j] \div 1000000
+ColsOK == /\ Len(Cols) = n /\ Tr.scale <= 100000000
+          /\ \A j \in Idx : \A k \in 1..Len(Cols[j]) :
+                LET c == Cols[j][k] IN c[1] \in Idx /\ c[2] > 0 /\ c[2] <= c[3] /\ c[2] <= 64
+
 ClausesOf(e) ==
   CASE e.ev = "eig"  -> {<<"RealDescending", RealDescending(e)>>, <<"LeadingOne", LeadingOne(e)>>,
                          <<"LeadingVectorStationary", LeadingVectorStationary(e)>>,
@@ -79,6 +108,9 @@ ClausesOf(e) ==
     [] e.ev = "eq"   -> {<<"EqStationary", EqStationary(e)>>}
     [] e.ev = "ts"   -> {<<"Timescales", Timescales(e)>>}
     [] e.ev = "prop" -> {<<"Propagate", Propagate(e)>>, <<"FinalIsLastRow", FinalIsLastRow(e)>>}
+    [] e.ev = "eigL" -> {<<"RealDescending", RealDescending(e)>>, <<"LeadingOne", LeadingOne(e)>>,
+                         <<"LeadingVectorStationary", StationaryL(e.p)>>}
+    [] e.ev = "eqL"  -> {<<"EqStationary", StationaryL(e.p)>>}
     [] e.ev = "raise" -> {<<"NoException", FALSE>>}
 
 RowsSumToD == D <= 20 /\ \A i \in Idx : SumTo(A[i], n) = D
@@ -91,5 +123,6 @@ Step == /\ l <= Len(Ev)
         /\ UNCHANGED tid
 Next == Step
 Report == (l = Len(Ev) + 1) =>
-   PrintT(<<"VERDICT", tid, fails \cup (IF RowsSumToD /\ ReversibleOK THEN {} ELSE {<<"BadInput", 0>>})>>)
+   PrintT(<<"VERDICT", tid, fails \cup (IF (IF Tr.large THEN ColsOK ELSE RowsSumToD /\ ReversibleOK)
+                                       THEN {} ELSE {<<"BadInput", 0>>})>>)
 =============================================================================
